@@ -139,8 +139,8 @@ RECIPES = {
     "ec_seckey_verify": [("", lambda P: ((P["secret"],), {}))],
     "ec_privkey_negate": [("", lambda P: ((P["secret"],), {}))],
     "ec_pubkey_negate": [("", lambda P: ((P["pub"],), {}))],
-    "ec_privkey_tweak_add": [("", lambda P: ((P["secret"], P["tweak"]), {}))],
-    "ec_pubkey_tweak_add": [("", lambda P: ((P["pub"], P["tweak"]), {}))],
+    "ec_privkey_tweak_add": [("", lambda P: ((bytearray(P["secret"]), P["tweak"]), {}))],   # in place: needs a mutable buffer since fix c08-kf1
+    "ec_pubkey_tweak_add": [("", lambda P: ((bytearray(P["pub"]), P["tweak"]), {}))],
     "ec_privkey_add": [("", lambda P: ((P["secret"], P["tweak"]), {}))],
     "ec_pubkey_add": [("", lambda P: ((P["pub"], P["tweak"]), {}))],
     "ec_privkey_tweak_mul": [("", lambda P: ((P["secret"], P["tweak"]), {}))],
